@@ -131,6 +131,17 @@ func main() {
 			}
 		}
 	}
+	// websocket conversations: connect, listen 2.5 s (two polls), leave
+	for _, q := range []string{`{a="b"}`, `{a="b"} | json | c="d"`, `{a="b"} | logfmt | label_format w="const"`, `rate({a="b"}[1m])`, `{a=`} {
+		for _, f := range []Fault{{Shape: "1batch"}, {Shape: "empty"}, {Shape: "3batches"}, {Shape: "1batch", Kind: "open_err", Nth: 2},
+			{Shape: "3batches", Kind: "row_err", Nth: 2, Row: 100}, {Shape: "1batch", Kind: "scan_err", Nth: 3, Row: 1},
+			{Shape: "1batch", Kind: "block", Nth: 2, Row: 1}, {Shape: "1batch", Kind: "open_err", Nth: 0}} {
+			if !thorough && f.Kind != "" && q != `{a="b"} | json | c="d"` {
+				continue
+			}
+			add(Case{Group: "G3", Route: "loki_tail", Query: q, Fault: f})
+		}
+	}
 	results := p.runAll(cases)
 
 	// G3 faults: for every base and every statement it sent, every fault kind at every interesting row
@@ -230,7 +241,7 @@ func checkRoutes() error {
 		covered[s.Tmpl] = true
 	}
 	for t := range have {
-		if !covered[t] && t != "/loki/api/v1/tail" {
+		if !covered[t] {
 			return fmt.Errorf("router registers %s but the harness menu has no case for it", t)
 		}
 	}
@@ -478,6 +489,9 @@ func (p *pool) runAll(cases []Case) map[int]*Result {
 				c := cases[k]
 				c.CensusMs = quickCensusMs
 				c.ResponseMs = quickRespMs
+				if strings.HasPrefix(c.Route, "loki_tail") {
+					c.CensusMs = 2500 // the tail poller notices a closed watcher at its next 1 s tick
+				}
 				if w == nil || w.served > 3000 {
 					w.kill()
 					var err error
